@@ -903,5 +903,6 @@ func (h *H) runLink() {
 		}()
 		done <- struct{}{}
 	}
+	h.twoPeers()
 	h.tellBlocking()
 }
